@@ -3,6 +3,8 @@
 From Coq Require Import List Arith Bool.
 From M Require Import Base Flat FlatSpec.
 From P Require Import FlatP FlatOrder FlatMay.
+From M Require Hsm.
+From P Require HsmMay.
 Import ListNotations.
 
 (* Purity: for every machine whose transitions all have registered destinations, every
@@ -55,3 +57,14 @@ Example C12_nonvacuous :
   wf_machine mc = true /\ registered mc 0 = true /\
   snd (can_trigger mc ev (mkCtx 0 0 false) 0 0 0) = inr true.
 Proof. vm_compute. repeat split; reflexivity. Qed.
+
+(* Hierarchical machines (any state tree, parallel regions, transitions inherited from
+   ancestors, declared globally or inside state definitions): whatever the evaluated
+   callbacks return or raise, may_<event> never changes the configuration and runs only
+   prepare-stage, condition and (for routed exceptions) on_exception callbacks. *)
+Theorem C12_hsm_pure :
+  forall (hm : Hsm.hmachine) (ev : env) (c : ctx) (e : event) (p : nat) (f : Hsm.forest) tr f' r,
+    Hsm.can_trigger hm ev c e p f = (tr, f', r) ->
+    f' = f /\ Forall (fun it => HsmMay.may_slot (it_slot it) = true) tr.
+Proof. exact HsmMay.hsm_may_pure. Qed.
+Print Assumptions C12_hsm_pure.
